@@ -871,6 +871,61 @@ def gen_C18(rng, nops=400):
     return "\n".join(L) + "\n"
 
 
+def gen_C06_nodes(rng, nops=None):
+    """node-level histories on a quasi-reduced forest with pessimistic deletion:
+    nodes created through unpacked nodes (duplicates found in the unique table,
+    all-transparent nodes), references duplicated and dropped in random order
+    (chains of reclamation), everything dropped at the end"""
+    k = rng.choice([2, 3, 3, 4])
+    sizes = [rng.choice([2, 2, 3]) for _ in range(k)]
+    # held node references are not registered root edges: the audit's two count clauses
+    # are replaced here by the node-level count observations themselves
+    L = ["init " + rand_ctopts(rng), "auditmode lenient", "domain D " + " ".join(map(str, sizes)),
+         "forest F D set int mt qr del=pess " + rand_opts(rng).replace("del=opt", "").replace("del=never", "").replace("del=pess", "")]
+    held = {}     # name -> level of its node (0: the transparent edge)
+    n = 0
+    made = []     # (level, children) of earlier requests: re-requested to hit the unique table
+    for step in range(nops or rng.randint(15, 60)):
+        r = rng.random()
+        if r < 0.5 or not held:
+            lv = rng.randint(1, k)
+            if made and rng.random() < 0.25:
+                lv, cs = rng.choice(made)
+                if not all(c[0] == "t" or c in held for c in cs):
+                    continue
+            elif lv == 1:
+                cs = ["t%d" % rng.choice([0, 0, 1, 2, 3]) for _ in range(sizes[0])]
+            else:
+                pool = [x for x, l in held.items() if l == lv - 1 or l == 0]
+                if not pool:
+                    continue
+                cs = [rng.choice(pool) if rng.random() < 0.7 else "t0" for _ in range(sizes[lv - 1])]
+            n += 1
+            nm = "n%d" % n
+            L.append("nnew %s F %d %s" % (nm, lv, " ".join(cs)))
+            transparent = all(c == "t0" or held.get(c) == 0 for c in cs)
+            held[nm] = 0 if transparent else lv
+            made.append((lv, cs))
+        elif r < 0.65:
+            x = rng.choice(list(held))
+            n += 1
+            nm = "n%d" % n
+            L.append("ndup %s %s" % (nm, x))
+            held[nm] = held[x]
+        else:
+            x = rng.choice(list(held))
+            L.append("ndrop %s" % x)
+            del held[x]
+        if step % 9 == 8:
+            L.append("audit F")
+    names = list(held)
+    rng.shuffle(names)
+    for x in names:
+        L.append("ndrop %s" % x)
+    L.append("audit F")
+    return "\n".join(L) + "\n"
+
+
 def gen_C18_growing(rng):
     """histories whose maximum request grows over time: equal-sized chunks are
     recycled in adjacent runs (which merge into one hole larger than anything
